@@ -633,6 +633,13 @@ fn bool_from_env_var(env_var_name: &str) -> Result<Option<bool>> {
 }
 
 fn config_from_env() -> Result<EnvConfig> {
+    config_from_env_over(None)
+}
+
+/// Like `config_from_env`; `file_disk` is the `[cache.disk]` section of the
+/// config file, if there is one: each disk cache variable in the environment
+/// overrides only its own setting of that section.
+fn config_from_env_over(file_disk: Option<&DiskCacheConfig>) -> Result<EnvConfig> {
     // ======= AWS =======
     let s3 = if let Ok(bucket) = env::var("SCCACHE_BUCKET") {
         let region = env::var("SCCACHE_REGION").ok();
@@ -869,7 +876,9 @@ fn config_from_env() -> Result<EnvConfig> {
         .ok()
         .and_then(|v| parse_size(&v));
 
-    let mut preprocessor_mode_config = PreprocessorCacheModeConfig::activated();
+    let file_disk_default = DiskCacheConfig::default();
+    let file_disk = file_disk.unwrap_or(&file_disk_default);
+    let mut preprocessor_mode_config = file_disk.preprocessor_cache_mode;
     let preprocessor_mode_overridden = if let Some(value) = bool_from_env_var("SCCACHE_DIRECT")? {
         preprocessor_mode_config.use_preprocessor_cache_mode = value;
         true
@@ -884,10 +893,10 @@ fn config_from_env() -> Result<EnvConfig> {
         Ok("READ_ONLY") => (CacheModeConfig::ReadOnly, true),
         Ok("READ_WRITE") => (CacheModeConfig::ReadWrite, true),
         Ok(_) => {
-            warn!("Invalid SCCACHE_LOCAL_RW_MODE -- defaulting to READ_WRITE.");
-            (CacheModeConfig::ReadWrite, false)
+            warn!("Invalid SCCACHE_LOCAL_RW_MODE -- ignored.");
+            (file_disk.rw_mode, false)
         }
-        _ => (CacheModeConfig::ReadWrite, false),
+        _ => (file_disk.rw_mode, false),
     };
 
     let any_overridden = disk_dir.is_some()
@@ -896,8 +905,8 @@ fn config_from_env() -> Result<EnvConfig> {
         || disk_rw_mode_overridden;
     let disk = if any_overridden {
         Some(DiskCacheConfig {
-            dir: disk_dir.unwrap_or_else(default_disk_cache_dir),
-            size: disk_sz.unwrap_or_else(default_disk_cache_size),
+            dir: disk_dir.unwrap_or_else(|| file_disk.dir.clone()),
+            size: disk_sz.unwrap_or(file_disk.size),
             preprocessor_cache_mode: preprocessor_mode_config,
             rw_mode: disk_rw_mode,
         })
@@ -953,12 +962,12 @@ pub struct Config {
 
 impl Config {
     pub fn load() -> Result<Self> {
-        let env_conf = config_from_env()?;
-
         let file_conf_path = config_file("SCCACHE_CONF", "config");
-        let file_conf = try_read_config_file(&file_conf_path)
+        let file_conf: FileConfig = try_read_config_file(&file_conf_path)
             .context("Failed to load config file")?
             .unwrap_or_default();
+
+        let env_conf = config_from_env_over(file_conf.cache.disk.as_ref())?;
 
         Ok(Self::from_env_and_file_configs(env_conf, file_conf))
     }
